@@ -2,7 +2,9 @@
    Property theorems only.  Models: Model/HighestAverages.v (the loop of
    HighestAverages.evaluate), Prelude/GDict.v + Model/Convert.v (additive converters),
    Model/GetNBest.v, Model/Condorcet.v, Model/Bucklin.v (PreferenceAddition.evaluate); proofs: Proofs/Mono_proofs.v,
-   Proofs/Additive_proofs.v, Proofs/HA_proofs.v, Proofs/CopelandMono_proofs.v, Proofs/Minimax_proofs.v, Proofs/Bucklin_proofs.v.
+   Proofs/Additive_proofs.v, Proofs/HA_proofs.v, Proofs/CopelandMono_proofs.v, Proofs/Minimax_proofs.v, Proofs/Bucklin_proofs.v,
+   Proofs/BucklinShared_proofs.v, Proofs/BucklinLeave_proofs.v (changed ballots with shared ranks), Proofs/RaisesBallot_proofs.v (one moved
+   ballot -> pairwise counts, Model/Hybrids.v pairwise), Proofs/Scorers_proofs.v (rank scorers).
 
    [tot_s (final_state d votes n prev caps) c] is the number of seats party c holds for certain when
    the loop stops (previous gains + seats awarded; seats of a reported tie are not included). *)
